@@ -6,7 +6,7 @@ import logging
 from abc import ABC, abstractmethod
 from asyncio.exceptions import CancelledError
 from asyncio.streams import StreamReader, StreamWriter, start_server
-from asyncio.tasks import Task, create_task
+from asyncio.tasks import Task, create_task, sleep
 from pathlib import Path
 from typing import TYPE_CHECKING, Any, Generic, TypeVar
 
@@ -152,7 +152,12 @@ class ControlServer(ABC, Generic[ClientT]):
         self._server = await self._get_server_instance(
             self._client_connected_cb, **self._server_kwargs
         )
-        return create_task(self._serve_forever())
+        task = create_task(self._serve_forever())
+        # Let the serving task take its first step before handing it out:
+        # a task that is cancelled before it ever ran does not run at all,
+        # so the server would keep listening and never be cleaned up.
+        await sleep(0)
+        return task
 
 
 class TCPControlServer(ControlServer[TCPControlClient]):
